@@ -11,7 +11,7 @@ import traceback
 
 from . import alg
 from .alg import Poly
-from .interp import Repo, Interp, Ctx, AnalysisError, RepoRaise, UndecidableBranch, UFun, Obj
+from .interp import Repo, Interp, Ctx, AnalysisError, RepoRaise, UndecidableBranch, UFun, Obj, RegionDependent
 from .tens import Tens, ShapeError, Unsupported
 
 VERIF = os.path.dirname(os.path.dirname(os.path.abspath(__file__)))
@@ -354,7 +354,13 @@ def run_main(prop_module, argv):
     except AnalysisBroken as e:
         print(f"ANALYSIS-ERROR property={prop_module.PROP}: {e}")
         return 2
-    except (RepoRaise, ShapeError) as e:
+    except (RepoRaise, ShapeError, RegionDependent) as e:
+        if isinstance(e, RegionDependent) and CURRENT[0] is not None:
+            ck = CURRENT[0]
+            at = f"{e.file}:{getattr(e.node, 'lineno', '?')}"
+            ck.rule("no-value-range-dispatch", "a constructor must not build structurally different steppers for different value ranges of a float parameter: no documented formula has such a case distinction (and a traced parameter always takes one branch)")
+            ck.fail("no-value-range-dispatch", f"{e.cls.qual}#{e.cond}", at, f"{e.cls.name}: the Python branch on {e.cond} in {e.fn} builds different objects on the two sides ({'; '.join(e.diff)[:300]}): the class cannot equal its documented formula on both value ranges")
+            return ck.finish(explanation="ABORTED: value-range dependent construction reported. " + str(e)[:300], rule_text="constructor forked on both outcomes of a parameter-range branch; the two objects were compared field by field", exhaustive=False)
         # the interpreted repository code itself raises (an explicit raise, a call that does not fit the callee's
         # signature, an out-of-range index, arrays that cannot be combined, a division by an exact zero) in a
         # configuration the property quantifies over and outside every rule that expects a rejection: definite
